@@ -382,3 +382,50 @@ func feedFuncEnums(w *World) map[string]string {
 	}
 	return out
 }
+
+
+// shippedUnknownKeys lists (file:line) the keys of shipped configuration entries that are not in known.
+func shippedUnknownKeys(w *World, known map[string]bool) []string {
+	dir := filepath.Join(w.repo, "omniwitness")
+	emb, err := embedTargets(dir)
+	if err != nil {
+		return nil
+	}
+	var out []string
+	var files []string
+	for _, f := range emb {
+		if strings.HasSuffix(f, ".yaml") || strings.HasSuffix(f, ".yml") {
+			files = append(files, f)
+		}
+	}
+	sort.Strings(files)
+	for _, f := range files {
+		path := filepath.Join(dir, f)
+		data, ok := w.overlay[path]
+		if !ok {
+			data, err = os.ReadFile(path)
+			if err != nil {
+				continue
+			}
+		}
+		var doc struct {
+			Logs []map[string]yaml.Node `yaml:"Logs"`
+		}
+		if yaml.Unmarshal(data, &doc) != nil {
+			continue
+		}
+		for _, e := range doc.Logs {
+			var ks []string
+			for k := range e {
+				ks = append(ks, k)
+			}
+			sort.Strings(ks)
+			for _, k := range ks {
+				if !known[k] {
+					out = append(out, fmt.Sprintf("omniwitness/%s:%d (key %s)", f, e[k].Line, k))
+				}
+			}
+		}
+	}
+	return out
+}
